@@ -18,7 +18,7 @@
    [rows 0 f] : pre-order list of (parent id, node id, payload) of a forest;
    [ins_rows blk l l'] : l' is l with the block blk inserted, all else in place. *)
 From Coq Require Import List ZArith Bool Arith Lia Permutation.
-From NT Require Import Sx Rose Surgery SurgeryFacts Machine WF MachineFacts Effects FrameTrees CopyFacts CopyMulti.
+From NT Require Import Sx Rose Surgery SurgeryFacts Machine WF MachineFacts Effects FrameTrees CopyFacts CopyMulti CopyWF.
 Import ListNotations.
 
 (* ---- the recursive copy (Node._add_from) ---- *)
@@ -199,6 +199,28 @@ Proof.
 Qed.
 Print Assumptions C07_place_all.
 
+(* ---- copying inside one tree: the source branch stays, identical as a value ---- *)
+Theorem C07_add_node_same_tree : forall w ti p src e k b deep r w' t s,
+  op_add_node w ti p ti src e k b deep = (Ok r, w') ->
+  get_tree w ti = Some t -> NoDup (ids (forest_of t)) -> (forall n, In n (ids (forest_of t)) -> n < next w) ->
+  get_node src (forest_of t) = Some s ->
+  exists t', get_tree w' ti = Some t' /\ NoDup (ids (forest_of t')) /\
+    (~ In p (ids_t s) -> get_node src (forest_of t') = Some s) /\
+    (deep = Some true -> ~ In p (ids_t s)).
+Proof. exact add_node_same_tree. Qed.
+Print Assumptions C07_add_node_same_tree.
+
+(* ---- Tree.copy / Node.copy keep the world well-formed (the C01-C03 invariant) ---- *)
+Theorem C07_tree_copy_WFw : forall w sti r w',
+  WFw w -> 0 < next w -> op_tree_copy w sti = (Ok r, w') -> WFw w'.
+Proof. exact tree_copy_WFw. Qed.
+Print Assumptions C07_tree_copy_WFw.
+
+Theorem C07_node_copy_WFw : forall w sti src add_self r w',
+  WFw w -> 0 < next w -> op_node_copy w sti src add_self = (Ok r, w') -> WFw w'.
+Proof. exact node_copy_WFw. Qed.
+Print Assumptions C07_node_copy_WFw.
+
 (* ---- source unchanged / independent ---- *)
 
 (* every operation, whatever its outcome, leaves every tree it does not work on exactly
@@ -353,3 +375,12 @@ Proof.
   vm_compute in X. discriminate.
 Qed.
 Print Assumptions C07_full_statement_refuted.
+
+(* a deep copy of branch 2 inside tree 0 (below node 3): the source branch is still the same value; the world is well-formed *)
+Definition w7s : world := snd (step w7 (OAddNode 0 3 0 2 None None BNone (Some true))).
+Example C07_same_tree_nonvacuous :
+    fst (step w7 (OAddNode 0 3 0 2 None None BNone (Some true))) = Ok [5] /\
+    get_node 2 (forest_of (nth 0 (trees w7s) dflt)) = get_node 2 src7 /\
+    ids (forest_of (nth 0 (trees w7s) dflt)) = [1; 2; 4; 3; 5; 6] /\
+    wf_world_b w7 = true /\ wf_world_b w7c = true /\ wf_world_b w7s = true.
+Proof. conjs; vm_compute; reflexivity. Qed.
